@@ -1749,7 +1749,8 @@ func (p *printer) funcDecl(d *ast.FuncDecl) {
 	p.print(d.Pos(), token.FUNC, blank)
 	if d.Recv != nil {
 		var thisTypeIdent *ast.Ident
-		if d.Recv.List[0].Names[0].Name == "this" {
+		// the receiver may be unnamed (`func (T) M()`) or, in a partial tree, empty
+		if len(d.Recv.List) > 0 && len(d.Recv.List[0].Names) > 0 && d.Recv.List[0].Names[0].Name == "this" {
 			if typ, ok := d.Recv.List[0].Type.(*ast.StarExpr); ok {
 				if ident, ok := typ.X.(*ast.Ident); ok {
 					thisTypeIdent = ident
